@@ -530,7 +530,7 @@ def run_cond(res, specs, opts):
             stats['refuted_in_model'] += 1
             nm = key.split('@')[0]; di = [k for k, (lo, hi) in enumerate(cond.DECADES) if '@sigma(%g,%g]' % (float(lo), float(hi)) in key][0]
             worst = None
-            for asg in cond.concretise(e, p, nm, di, n=opts.get('cond_points', 16), seed=opts.get('seed', 0)):
+            for asg in cond.concretise(e, p, nm, di, n=opts.get('cond_points', 16), seed=12345):   # fixed placement seed: the reproduced set must not depend on VERIF_SEED
                 val = dagm.numeval(e.nodes, [p.outs[nm]], asg, mp)
                 ref = val[p.outs[nm]]
                 inp = os.path.join(rundir, 'cond_in.txt')
